@@ -14,6 +14,7 @@ CHECKS = {
     "C02": essa.c02,
     "C20": essa.c20,
     "C15": essa.c15,
+    "C12": essa.c12,
     "C13": essa.c13,
     "C03": essa.c03,
     "C19": essa.c19,
